@@ -20,22 +20,22 @@ import (
 type pos struct{ chain, class, id string }
 
 type flight struct {
-	tok     string // native token identity
-	amount  uint64
-	sender  string
-	srcPos  pos
-	away    bool
-	done    bool // delivered successfully, or refunded
-	errAck  bool
-	pkt     packettypes.Packet
+	tok    string // native token identity
+	amount uint64
+	sender string
+	srcPos pos
+	away   bool
+	done   bool // delivered successfully, or refunded
+	errAck bool
+	pkt    packettypes.Packet
 }
 
 type Ledger struct {
-	ident   map[pos]string      // position -> native token identity
-	from    map[pos]string      // voucher position -> chain it was received from (previous hop)
-	burnt   map[string]bool     // NFT identities burnt by their holder
-	minted  map[string]uint64   // MT identity -> natively minted units minus user burns (mod 2^64 never reached)
-	flights map[string]*flight  // packet key -> flight
+	ident   map[pos]string     // position -> native token identity
+	from    map[pos]string     // voucher position -> chain it was received from (previous hop)
+	burnt   map[string]bool    // NFT identities burnt by their holder
+	minted  map[string]uint64  // MT identity -> natively minted units minus user burns (mod 2^64 never reached)
+	flights map[string]*flight // packet key -> flight
 	order   []string
 	serial  int
 }
